@@ -10,7 +10,7 @@
 * `tie(ctx, name, cmd, drv)` — run a tie and apply the two filters above.
 """
 import json, os, re
-from vlib import VERIF
+from vlib import VERIF, CHAN_RUSTFLAGS
 
 FIND = os.path.join(VERIF, "findings")
 
@@ -82,7 +82,7 @@ def witness_tie(ctx, h, drv, fname, drvargs=()):
 def standard_run(ctx, module, theorems, witnesses, quick_n=(3000, 3000), thorough_n=(60000, 60000), extra=None):
     ctx.lean_obligations(module, theorems)
     drv = ctx.lean_exe("fvdrv_chan")
-    h = ctx.cargo_build("chan", "chanh", rustflags="--cfg loom")
+    h = ctx.cargo_build("chan", "chanh", rustflags=CHAN_RUSTFLAGS)
     ctx.assumptions += [a for a in ASSUMPTIONS if a not in ctx.assumptions]
     if ctx.replay:
         tie(ctx, "replay", [h, "run", ctx.replay], [drv]); return h, drv
